@@ -16,8 +16,9 @@ package decode
 //@ func decodeSize
 //@   safety[C02]
 //@   let n = sizeFieldSize(mem(b), lo(b), hi(b))
-//@   ensures n < 0 ==> result1 == 0 - 1 && result0 == 0
-//@   ensures n >= 1 ==> result1 == n && result0 == varintVal(mem(b), hi(b), n)
+//@   ensures[C02] 0 - 1 <= result1 && result1 <= len(b) && result1 <= 5
+//@   ensures[!C02] n < 0 ==> result1 == 0 - 1 && result0 == 0
+//@   ensures[!C02] n >= 1 ==> result1 == n && result0 == varintVal(mem(b), hi(b), n)
 
 //@ func DecodeType
 //@   safety[C02]
